@@ -124,7 +124,7 @@ def run(chk):
   early = [n for n in v.cfg.stmt_nodes() if isinstance(v.cfg.stmt[n], ast.If) and
            isinstance(v.cfg.stmt[n].test, ast.Compare) and
            isinstance(v.cfg.stmt[n].test.ops[0], ast.In) and
-           'table_to_defined_table_map' in norm(v.cfg.stmt[n].test.comparators[0])]
+           'table_to_defined_table_map' in norm(v.expand(v.cfg.stmt[n].test.comparators[0]))]
   if not early:
     raise AnalysisError('TranslateTableAttachedToFile: already-defined test not found')
   hdr = early[0]
@@ -138,7 +138,7 @@ def run(chk):
            fi=v.fi, node=s[1])
   reg = [n for n in v.cfg.stmt_nodes() if isinstance(v.cfg.stmt[n], ast.Assign) and
          isinstance(v.cfg.stmt[n].targets[0], ast.Subscript) and
-         'table_to_defined_table_map' in norm(v.cfg.stmt[n].targets[0].value)]
+         'table_to_defined_table_map' in norm(v.expand(v.cfg.stmt[n].targets[0].value))]
   for s in ps:
     chk.ob('C17-R1', bool(reg) and v.cfg.must_pass_before(s[0], reg), None,
            'the table is registered as defined before its body is compiled',
@@ -227,6 +227,51 @@ def run(chk):
   chk.ob('C17-R2', ok, None, 'ClickHouse drop action drops the grounded table and precedes the create',
          'the separate drop action no longer targets ground.table_name / is not ordered before the table',
          fi=ca)
+
+  # several predicates requested in one run: what is done for one execution
+  # (which grounded tables keep their write action, which are renamed) must
+  # not depend on how many executions were processed before it - inside the
+  # loop over the executions no container is both grown and consulted
+  ex = FnView(repo, 'concertina_lib.ExecuteLogicaProgram')
+  execs = ex.fi.params[0]
+  loops = [n for n in ex.cfg.stmt_nodes() if isinstance(ex.cfg.stmt[n], ast.For) and
+           dotted(ex.cfg.stmt[n].iter) == execs]
+  if not loops:
+    raise AnalysisError('ExecuteLogicaProgram: loop over the executions not found')
+  for ln in loops:
+    loop = ex.cfg.stmt[ln]
+    grown, consulted = {}, {}
+    for x in ast.walk(loop):
+      if isinstance(x, ast.Call) and isinstance(x.func, ast.Attribute) and \
+          isinstance(x.func.value, ast.Name) and x.func.attr in ('add', 'update', 'append', 'extend'):
+        grown.setdefault(x.func.value.id, x)
+      if isinstance(x, ast.AugAssign) and isinstance(x.target, ast.Name):
+        grown.setdefault(x.target.id, x)
+      if isinstance(x, ast.Assign) and isinstance(x.targets[0], ast.Subscript) and \
+          isinstance(x.targets[0].value, ast.Name):
+        grown.setdefault(x.targets[0].value.id, x)
+    for x in ast.walk(loop):
+      tests = []
+      if isinstance(x, (ast.If, ast.While)):
+        tests.append(x.test)
+      elif isinstance(x, ast.For) and x is not loop:
+        tests.append(x.iter)
+      elif isinstance(x, ast.comprehension):
+        tests.append(x.iter)
+        tests.extend(x.ifs)
+      for t_ in tests:
+        for n_ in ast.walk(t_):
+          if isinstance(n_, ast.Name) and n_.id in grown:
+            consulted.setdefault(n_.id, t_)
+    both = sorted(set(grown) & set(consulted))
+    chk.ob('C17-R1', not both, None,
+           'handling of one requested predicate does not depend on the ones handled before it',
+           '`%s` is filled inside the loop over the requested predicates and consulted '
+           'in the same loop (`%s`): a grounded predicate requested after its reader '
+           'is not recognised as final, its table-writing action is overwritten and '
+           'the reader sees the table of an earlier run'
+           % (both[0] if both else '', norm(consulted[both[0]], 60) if both else ''),
+           fi=ex.fi, node=loop)
 
   chk.rule('C17-R3', 'asking for a grounded predicate prints it: '
            'FormattedPredicateSql compiles `name` directly and never routes it '
